@@ -145,7 +145,21 @@ def gen_cases(seed, chunk, n, tier):
                 if orc is None and any(abs(t) > 1e-8 * scale for t in rem):
                     orc = "the dense form has non-zero eigenvalues that were not returned"
             elif kind == "norm":
-                got = float(x.norm()) ** 2
+                if rng.random() < 0.3 and x.blocks and not steps:
+                    # an array with MIXED block element types, as ordinary arithmetic produces it: real x plus a
+                    # sparser complex y keeps x's untouched blocks real (in either operand order)
+                    yb = {s_: (np.asarray(b_) * (1 + 2j)).astype("complex128") for s_, b_ in x.blocks.items()
+                          if rng.random() < 0.5}
+                    xr = x.copy()
+                    xr.apply_to_arrays(lambda b_: np.asarray(b_).real.astype("float64"))
+                    ycl = x.copy_with(blocks=yb)
+                    x = (xr + ycl) if rng.random() < 0.7 else (ycl + xr)
+                    env = {name: x}
+                    mixed = True
+                nv = x.norm()
+                if abs(complex(nv).imag) > 1e-9:
+                    raise ValueError(f"norm() returned the non-real value {nv}")
+                got = float(complex(nv).real) ** 2
                 D = oracle.dense(x)
                 want = float((D.real ** 2 + D.imag ** 2).sum())
                 if abs(got - want) > 2e-5 * max(1.0, want):
